@@ -247,7 +247,7 @@ func init() {
 	Register(&Check{
 		ID: "C04", Level: "exploration", Tech: "deterministic simulation: invariant monitor over raw index rows x independent tape scan x recovery.Query x recovery.Fetch, contents from the reference model",
 		Rule:      "seeded histories biased to batched Operations.Archive calls with k=1..6 members, content and metadata updates, moves, deletes, small record sizes and content lengths that make records start at every block offset and span record boundaries; after every call: every live row's (record,block) is the start of a scanned record that carries one of the entry's names, block < record size, last-known >= content position and is a record start, recovery.Fetch there returns the model's current content, recovery.Query positions equal the scan's, the index's last-written position is the last record; non-trivial = at least 3 records with content on the tape; distinct by (op kinds, record size, config)",
-		QuickRuns: 2500, QuickSecs: 60, ThoroughRuns: 50000, ThoroughSecs: 1500,
+		QuickRuns: 5000, QuickSecs: 60, ThoroughRuns: 50000, ThoroughSecs: 1500,
 		Assumptions: []string{"contents expected at a position come from RefFS (KF1 name exclusion applies)", "regular-file drive"},
 		Gen: func(r *rand.Rand, tier string, relax Relax) *Case {
 			c := &Case{Cfg: GenConfig(r, 0.6), P: map[string]int64{}, S: map[string]string{}}
